@@ -7,7 +7,12 @@
 (* label / condition semantics, not from the controllers' code.            *)
 (*                                                                         *)
 (*   c       a NodeClaim record as stored just before the delete           *)
-(*   t       the instant of the delete (seconds since the scenario epoch)  *)
+(*   t       the instant of the delete in MILLISECONDS since the scenario  *)
+(*           epoch (event field tms).  Stored stamps (created, condSince)  *)
+(*           and durations (expireAfter, tolerations, timeouts) are whole  *)
+(*           seconds - the API serialises times with second precision -    *)
+(*           and are converted with Ms() before every comparison, so a     *)
+(*           delete 1 ms before a threshold fails its guard.               *)
 (*   nodes   the Node objects in the store at that instant, as a function  *)
 (*           name -> Node record (absent nodes are not in the domain)      *)
 (*   policies  the provider's repair policies, a sequence of               *)
@@ -19,10 +24,11 @@
 EXTENDS LifecycleGuards
 
 PoolKey == "karpenter.sh/nodepool"
+Ms(sec) == sec * 1000
 
 \* ---------------------------------------------------------------- expiration
 \* no earlier than creation + expireAfter, never when expiry is disabled (expireAfter = -1 is "Never")
-G_C16_Expiration(c, t) == c.expireAfter >= 0 /\ t >= c.created + c.expireAfter
+G_C16_Expiration(c, t) == c.expireAfter >= 0 /\ t >= Ms(c.created + c.expireAfter)
 SigExpiration(c, t) == IF c.expireAfter < 0 THEN "expiry-disabled" ELSE "before-expiry"
 
 \* ---------------------------------------------------------------- garbage collection
@@ -52,13 +58,14 @@ Matches(n, p) == p.type \in DOMAIN n.conds /\ n.conds[p.type] = p.status
 Unhealthy(n, policies) == \E i \in DOMAIN policies : Matches(n, policies[i])
 \* the unhealthy condition has lasted the provider's toleration
 ToleratedOut(n, t, policies) ==
-    \E i \in DOMAIN policies : Matches(n, policies[i]) /\ t >= n.condSince[policies[i].type] + policies[i].toleration
+    \E i \in DOMAIN policies : Matches(n, policies[i]) /\ t >= Ms(n.condSince[policies[i].type] + policies[i].toleration)
 \* 20 % rounded up
 Ceil20(k) == (k + 4) \div 5
 \* the pool's nodes = Nodes labelled with the claim's pool; for a pool-less (standalone) claim: every Node of the cluster
 HasPool(x) == PoolKey \in DOMAIN x.labels
 Scope(c, nodes) == IF HasPool(c) THEN {k \in DOMAIN nodes : HasPool(nodes[k]) /\ nodes[k].labels[PoolKey] = c.labels[PoolKey]}
                    ELSE DOMAIN nodes
+\* the numerator counts every unhealthy Node of the scope that still exists - terminating ones included
 WithinUnhealthyBudget(c, nodes, policies) ==
     LET S == Scope(c, nodes) IN Cardinality({k \in S : Unhealthy(nodes[k], policies)}) <= Ceil20(Cardinality(S))
 \* n = the Node whose NodeClaim c is deleted ([exists |-> FALSE] if there is none in the store)
@@ -72,5 +79,11 @@ SigRepair(c, n, t, policies, nodes) ==
     ELSE IF ~ToleratedOut(n, t, policies) THEN "before-toleration"
     ELSE IF HasPool(c) THEN "pool-over-20pct" ELSE "cluster-over-20pct"
 
+\* liveness with the instant in milliseconds (G_C16_Liveness of LifecycleGuards takes whole seconds)
+G_C16_LivenessMs(c, t, launchTimeout, regTimeout) ==
+    LET since(cn) == IF c.condSince[cn] >= 0 THEN c.condSince[cn] ELSE c.created IN
+    /\ c.registered # "True"
+    /\ \/ (c.launched # "True" /\ t >= Ms(since("Launched") + launchTimeout))
+       \/ t >= Ms(since("Registered") + regTimeout)
 SigLiveness(c) == IF c.registered = "True" THEN "registered" ELSE IF c.launched = "True" THEN "registration" ELSE "launch"
 =============================================================================
